@@ -50,6 +50,9 @@ RULE += (
     'NHASHSEED) among the crash points; a state whose pytree structure changes over the round'
     's, with a weakly typed scalar and a float16 leaf; root_dir given as a file:// URI or wit'
     'h digits in its name; one schedule in twelve carries a 17 MiB state.')
+RULE += (
+    ' '
+    'Also: root_dir with a trailing slash.')
 ASSUMPTIONS = [
     'crash model: BaseException raised at the effect (no fedjax handler '
     'catches it) + the file being written truncated to a generated prefix; a '
